@@ -1249,7 +1249,7 @@ func (g *c12gen) compaction(nkeys int) {
 // when a table STARTS beyond it stops at A's last key and leaves X out.)
 func (g *c12gen) l0hull(id string) {
 	w, r := g.w, g.r
-	fmt.Fprintf(w, "case %s memsize=100000 maxmem=8 ratio=1000000 sstmax=1000000\n", id)
+	fmt.Fprintf(w, "case %s memsize=100000 maxmem=2 ratio=1000000 sstmax=1000000\n", id)
 	key := func(i int) string { return fmt.Sprintf("%02x", 0x61+i) } // a..z
 	table := func(ks []int, dels map[int]bool) {
 		sort.Ints(ks)
